@@ -120,3 +120,34 @@ def gen_model(rng, nclasses=None, share_names=True, with_code=True, max_members=
             c.add_method("<init>", "V", (), W.ACC_PUBLIC | W.ACC_CONSTRUCTOR,
                          W.Code(1, 1, 1, [("invoke-direct", [0], W.Mth(sup, "<init>", "V", ())), ("return-void",)]))
     return m
+
+
+def enrich(rng, m):
+    """add the optional sections a real DEX has: class/field/method annotations with every reference kind of value (incl. VALUE_METHOD, which
+    makes the annotation section depend on the method ids), static initial values (encoded arrays) and debug info items"""
+    for c in m.classes:
+        if rng.random() < 0.6:
+            els = [("value", W.EV(W.V_STRING, "s" + ident(rng))), ("t", W.EV(W.V_TYPE, rng.choice(EXTERNAL))), ("n", W.EV(W.V_INT, rng.randrange(-5, 5)))]
+            meths = c.direct_methods + c.virtual_methods
+            if meths:
+                els.append(("m", W.EV(W.V_METHOD, rng.choice(meths).ref)))
+            flds = c.static_fields + c.instance_fields
+            if flds:
+                els.append(("f", W.EV(W.V_FIELD, rng.choice(flds).ref)))
+                els.append(("e", W.EV(W.V_ENUM, rng.choice(flds).ref)))
+            els.append(("arr", W.EV(W.V_ARRAY, [W.EV(W.V_INT, 1), W.EV(W.V_STRING, "x")])))
+            rng.shuffle(els)
+            c.annotations.append(W.Annotation("Ldalvik/annotation/EnclosingMethod;" if rng.random() < 0.5 else "Lann/A;", els[: rng.randrange(1, len(els) + 1)], visibility=rng.choice([0, 1, 2])))
+        for f in c.static_fields:
+            if f.type in ("I", "S", "B", "J") and rng.random() < 0.5:
+                f.init = W.EV({"I": W.V_INT, "S": W.V_SHORT, "B": W.V_BYTE, "J": W.V_LONG}[f.type], rng.randrange(-100, 100))
+            elif f.type == "Ljava/lang/String;" and rng.random() < 0.5:
+                f.init = W.EV(W.V_STRING, "init" + ident(rng))
+            if rng.random() < 0.2:
+                f.annotations.append(W.Annotation("Lann/F;", [("v", W.EV(W.V_BOOLEAN, True))]))
+        for mt in c.direct_methods + c.virtual_methods:
+            if mt.code is not None and rng.random() < 0.4:
+                mt.code.debug = {"line_start": rng.randrange(1, 500), "param_names": [rng.choice([None, "p" + ident(rng)]) for _ in mt.params], "ops": [0x01, 0x02, 0x0A] if rng.random() < 0.5 else []}
+            if rng.random() < 0.2:
+                mt.annotations.append(W.Annotation("Lann/M;", [("who", W.EV(W.V_METHOD, mt.ref))]))
+    return m
